@@ -61,7 +61,7 @@ for p in props:
 
 man = {
     'version': 1,
-    'setup_cmd': '/venv/bin/python tools/extract_tables.py && cd lean && lake build',
+    'setup_cmd': 'bash tools/setup.sh',
     'hooks': {
         'guard': 'TXDBUS_VERIF',
         'enable': 'no source hooks are needed: the harness substitutes the reactor, wraps dispatch tables and installs fake transports from outside (check.py sets TXDBUS_VERIF=1 for uniformity; nothing in /repo reads it)',
